@@ -60,7 +60,7 @@ func ExplainGsub(fontInfo *sfnt.Font) string {
 						to:   []glyph.ID{key + l.Delta},
 					})
 				}
-				ee.explainSeqMappings(mappings)
+				ee.explainSeqMappings(mappings, true)
 
 			case *gtab.Gsub1_2:
 				checkType(1)
@@ -71,7 +71,7 @@ func ExplainGsub(fontInfo *sfnt.Font) string {
 						to:   []glyph.ID{l.SubstituteGlyphIDs[idx]},
 					})
 				}
-				ee.explainSeqMappings(mappings)
+				ee.explainSeqMappings(mappings, true)
 
 			case *gtab.Gsub2_1:
 				checkType(2)
@@ -112,7 +112,7 @@ func ExplainGsub(fontInfo *sfnt.Font) string {
 						})
 					}
 				}
-				ee.explainSeqMappings(mappings)
+				ee.explainSeqMappings(mappings, false)
 
 			case *gtab.SeqContext1:
 				checkType(5)
@@ -391,7 +391,10 @@ type mapping struct {
 	to   []glyph.ID
 }
 
-func (ee *explainer) explainSeqMappings(mm []mapping) {
+// explainSeqMappings writes a comma-separated list of mappings.  If
+// useRanges is set, runs of single glyph mappings with constant offset are
+// abbreviated to ranges (this notation is only understood for GSUB1).
+func (ee *explainer) explainSeqMappings(mm []mapping, useRanges bool) {
 	sort.SliceStable(mm, func(i, j int) bool {
 		return mm[i].from[0] < mm[j].from[0]
 	})
@@ -401,8 +404,8 @@ func (ee *explainer) explainSeqMappings(mm []mapping) {
 		ee.w.WriteString(sep)
 		sep = ", "
 
-		canRange := len(mm) > 2
-		for i := 1; canRange && i < len(mm); i++ {
+		canRange := useRanges && len(mm) > 2
+		for i := 0; canRange && i < len(mm); i++ {
 			if len(mm[i].from) != 1 || len(mm[i].to) != 1 {
 				canRange = false
 			}
